@@ -37,6 +37,10 @@ type binder struct{ name, sort string }
 type Script struct {
 	canonMemo map[string]string
 	fresh     map[string]bool              // terms denoting references allocated by this execution (pairwise distinct)
+	allocSeq  map[string]int               // allocation sequence number of each fresh term
+	refStamp  map[string]int               // reference-valued terms read from memory: number of allocations made before the read
+	seq       int
+	lineTag   map[int]string               // line index -> tag of a droppable labelled hypothesis
 	defs      map[string]string            // defined name -> body (definitions without binders)
 	elemFacts map[string]map[string]string // declared array -> literal index -> element term
 	lines     []string
@@ -47,7 +51,7 @@ type Script struct {
 }
 
 func newScript() *Script {
-	s := &Script{declared: map[string]string{}, fresh: map[string]bool{}, defs: map[string]string{}, elemFacts: map[string]map[string]string{}}
+	s := &Script{declared: map[string]string{}, fresh: map[string]bool{}, allocSeq: map[string]int{}, refStamp: map[string]int{}, defs: map[string]string{}, elemFacts: map[string]map[string]string{}}
 	s.lines = append(s.lines,
 		"(declare-sort Str 0)",
 	)
@@ -180,6 +184,58 @@ func (s *Script) assume(t string) {
 
 func (s *Script) text(upto int) string {
 	return strings.Join(s.lines[:upto], "\n") + "\n"
+}
+
+// assumeTagged is assume for a labelled hypothesis (a loop invariant clause, a callee's
+// postcondition): obligations that name the hypotheses they use leave the others out.
+func (s *Script) assumeTagged(tag, t string) {
+	if t == "true" {
+		return
+	}
+	n := len(s.lines)
+	s.assume(t)
+	if s.lineTag == nil {
+		s.lineTag = map[int]string{}
+	}
+	for i := n; i < len(s.lines); i++ {
+		if strings.HasPrefix(s.lines[i], "(assert ") {
+			s.lineTag[i] = tag
+		}
+	}
+}
+
+// addTagged adds a raw line carrying a tag (see assumeTagged).
+func (s *Script) addTagged(tag, line string) {
+	if s.lineTag == nil {
+		s.lineTag = map[int]string{}
+	}
+	s.lineTag[len(s.lines)] = tag
+	s.add(line)
+}
+
+// textUsing is text without the labelled hypotheses that match none of the names in using
+// (a name matches a tag if it is the tag or its last components). Dropping hypotheses is sound.
+func (s *Script) textUsing(upto int, using []string) string {
+	if using == nil || len(s.lineTag) == 0 {
+		return s.text(upto)
+	}
+	var b strings.Builder
+	for i := 0; i < upto; i++ {
+		if tag, ok := s.lineTag[i]; ok {
+			keep := false
+			for _, u := range using {
+				if tag == u || strings.HasSuffix(tag, "."+u) {
+					keep = true
+				}
+			}
+			if !keep {
+				continue
+			}
+		}
+		b.WriteString(s.lines[i])
+		b.WriteString("\n")
+	}
+	return b.String()
 }
 
 // ---- boolean helpers with light simplification ----
@@ -364,9 +420,34 @@ func bvLitVal(t string) (uint64, int, bool) {
 
 // litOf resolves a term to a bit-vector literal if it is one.
 func (s *Script) lit(t string) (string, bool) {
+	return s.litDepth(t, 0)
+}
+
+func (s *Script) litDepth(t string, depth int) (string, bool) {
 	r := s.resolve(t)
 	if isBVLit(r) {
 		return r, true
+	}
+	if depth > 6 {
+		return "", false
+	}
+	toks := splitApp(r)
+	switch {
+	case len(toks) == 4 && toks[0] == "ite":
+		// both branches the same literal
+		a, oka := s.litDepth(toks[2], depth+1)
+		if !oka {
+			return "", false
+		}
+		b, okb := s.litDepth(toks[3], depth+1)
+		if okb && a == b {
+			return a, true
+		}
+	case len(toks) == 3 && toks[0] == "select" && depth < 4:
+		v := s.selDepth(toks[1], toks[2], 150)
+		if v != r && v != sel(toks[1], toks[2]) {
+			return s.litDepth(v, depth+1)
+		}
 	}
 	return "", false
 }
@@ -423,6 +504,11 @@ func (s *Script) selDepth(a, i string, depth int) string {
 				cur = toks[1]
 				continue
 			}
+			if s.olderThan(i, j) || s.olderThan(j, i) {
+				// a reference read from memory before an object was allocated is not that object
+				cur = toks[1]
+				continue
+			}
 			return sel(cur, i)
 		case toks[0] == "ite" && len(toks) == 4:
 			x := s.selDepth(toks[2], i, depth+1)
@@ -442,6 +528,30 @@ func (s *Script) selDepth(a, i string, depth int) string {
 		return sel(cur, i)
 	}
 	return sel(cur, i)
+}
+
+// olderThan: a is a reference value obtained (read from memory, or an input) before the
+// object denoted by the allocation term b was allocated.
+func (s *Script) olderThan(a, b string) bool {
+	if !s.fresh[b] {
+		return false
+	}
+	st, ok := s.refStamp[a]
+	if !ok {
+		return false
+	}
+	return s.allocSeq[b] > st
+}
+
+// stampRef records that the reference-valued term t was obtained now.
+func (s *Script) stampRef(t string, at int) {
+	if isBVLit(t) || s.fresh[t] {
+		return
+	}
+	if old, ok := s.refStamp[t]; ok && old <= at {
+		return
+	}
+	s.refStamp[t] = at
 }
 
 // selIte pushes a select through an ite-valued index of literals.
